@@ -230,7 +230,8 @@ func execUpgrade(x *Exec, f *vestFam, toks []string) string {
 			}
 			if c, ok := ai.(*sdkvesting.ContinuousVestingAccount); ok {
 				s.isCva, s.ov, s.dv, s.df, s.start, s.end = true, c.OriginalVesting.String(), c.DelegatedVesting.String(), c.DelegatedFree.String(), c.StartTime, c.EndTime
-				ws, we := time.Unix(c.StartTime, 0).AddDate(1, 0, 0).Unix(), time.Unix(c.EndTime, 0).AddDate(1, 0, 0).Unix()
+				// the one-year shift is a fact about the calendar in UTC: every node must compute the same value (D34)
+				ws, we := time.Unix(c.StartTime, 0).UTC().AddDate(1, 0, 0).Unix(), time.Unix(c.EndTime, 0).UTC().AddDate(1, 0, 0).Unix()
 				if fmt.Sprint(ws) != toks[1+2*i] || fmt.Sprint(we) != toks[2+2*i] {
 					panic(fmt.Sprintf("v.up.accounts AddDate fact wrong for %s: %d %d", a, ws, we))
 				}
@@ -365,15 +366,24 @@ func genUpgrade(g *Gen, n int) {
 		default: // traces and shifted accounts
 			accs := []string{"c4e1dsm96gwcv35m4rqd93pzcsztpkrqe0ev7getj8", "c4e10wjj2qmn4zjg2sdxq9mfyj5v4yukwyhzdtf2zp", "c4e1zrd0783g8qa5659apw5tpuqmz2ct6j20t4ymx3", "c4e1y8lndj6jz5z93g4xd05nmwyc3wtn39dfgfx7r7"}
 			var facts []string
-			for _, a := range accs {
-				switch g.intn(4) {
+			for ai, a := range accs {
+				kind := g.intn(4)
+				if ai == 0 {
+					kind = 2 // the first hard-coded account always is a vesting account (directed shape D34 below)
+				}
+				switch kind {
 				case 0:
 					facts = append(facts, "0", "0") // absent
 				case 1:
 					g.emit("v.fund %s [uc4e=5]", a) // plain base account
 					facts = append(facts, "0", "0")
 				default:
-					st := now/sec - int64(g.intn(1000)) + g.pickI(0, 86400*59, 86400*200)
+					// directed shape (D34): instants whose calendar date differs between time zones on the eve of a leap day
+					// (2023-02-28 20:00 UTC is already 1 March in Asia) and around a daylight-saving switch (2023-03-11 02:00 UTC)
+					st := now/sec - int64(g.intn(1000)) + g.pickI(0, 86400*59, 86400*200, 1677614400-now/sec, 1678500000-now/sec)
+					if ai == 0 {
+						st = 1677614400 - int64(g.intn(1000))
+					}
 					en := st + g.pickI(1, 1000, 86400*365, 86400*366)
 					ov := g.logBig(20)
 					g.emit("v.acct %s cva [uc4e=%s] %d %d", a, ov, st, en)
@@ -381,7 +391,7 @@ func genUpgrade(g *Gen, n int) {
 					if g.chance(0.5) {
 						g.emit("v.delegate %s uc4e %s", a, new(big.Int).Add(new(big.Int).Rand(g.r, ov), big.NewInt(1)))
 					}
-					facts = append(facts, fmt.Sprint(time.Unix(st, 0).AddDate(1, 0, 0).Unix()), fmt.Sprint(time.Unix(en, 0).AddDate(1, 0, 0).Unix()))
+					facts = append(facts, fmt.Sprint(time.Unix(st, 0).UTC().AddDate(1, 0, 0).Unix()), fmt.Sprint(time.Unix(en, 0).UTC().AddDate(1, 0, 0).Unix()))
 				}
 				if g.chance(0.6) {
 					g.emit("v.trace %s 0 0 0", a)
